@@ -441,6 +441,53 @@ def check(ctx):
         ctx.count(("cli", cmd.upper(), spec), True)
         if code != 2:
             ctx.violation("invalid specification for the second read does not exit with status 2", {"cmd": "-" + cmd.upper(), "spec": spec, "exit": str(code)})
+    # several specifications in one command line: each adapter is what the specification gives when it stands alone -- the
+    # parameters written behind one specification (a file: one included) do not reach the next
+    import random as _random
+    from cutadapt.parser import make_adapters_from_specifications
+    r2 = _random.Random(ctx.seed * 104729 + 18)   # own stream
+    TYPE = {"a": "back", "g": "front", "b": "anywhere"}
+    g0 = {"max_errors": 0.1, "min_overlap": 3, "read_wildcards": False, "adapter_wildcards": True, "indels": True}
+    params0 = dict(max_errors=0.1, min_overlap=3, read_wildcards=False, adapter_wildcards=True, indels=True)
+    nsev = 0
+    for _ in range(ctx.size(40, 400)):
+        recs = [("x%d" % i, U.rand_seq(r2, r2.randint(6, 12), "ACGT")) for i in range(r2.choice([1, 2]))]
+        cmd1, first = r2.choice([("a", "file:PATH;min_overlap=5;max_error_rate=0"), ("a", "file:PATH;e=0.2;noindels"), ("g", "^file:PATH;e=0"),
+                                 ("a", "ACGTACGTAA;e=0.3;o=7"), ("a", "name=TTTTCCCCGG;noindels;e=0"), ("g", "file:PATH;o=9")])
+        cmd2, second = r2.choice([("a", "GGCCAATTGGCC"), ("g", "^CCAATTGG"), ("a", "AACCGGTTAACC;o=4"), ("a", "TTGGCCAA$"), ("b", "ACGTTGCAAC"),
+                                  ("g", "GATTACAGATTACA...TTGGCCAA")])
+        alone, _sp = impl_parse(second, cmd2, g0, scratch, None)
+        path = os.path.join(scratch, "adapters.fasta")
+        with open(path, "w") as f:
+            for n, q in recs:
+                f.write(">%s\n%s\n" % (n, q))
+        try:
+            both = make_adapters_from_specifications([(TYPE[cmd1], first.replace("PATH", path)), (TYPE[cmd2], second)], dict(params0))
+            tail = [describe_obj(o) for o in both[len(both) - len(alone or []):]] if alone else None
+        except Exception as e:  # noqa
+            tail = "raises %s" % type(e).__name__
+        nsev += 1
+        ctx.count(("several", cmd1, first, cmd2, second, tuple(recs)), alone is not None)
+
+        def strip_names(ds):
+            if not isinstance(ds, list):
+                return ds
+            out = []
+            for d_ in ds:
+                d_ = dict(d_)
+                d_.pop("name", None)
+                for k_ in ("front", "back"):
+                    if isinstance(d_.get(k_), dict):
+                        d_[k_] = {kk: vv for kk, vv in d_[k_].items() if kk != "name"}
+                out.append(d_)
+            return out
+
+        if alone is not None and strip_names(tail) != strip_names(alone):
+            ctx.violation("an adapter given after another specification differs from the same adapter given alone",
+                          {"first": ["-" + cmd1, first], "second": ["-" + cmd2, second], "records": recs, "alone": jsonable(alone), "together": jsonable(tail),
+                           "why": "-%s %r after -%s %r is built as %r, alone as %r" % (cmd2, second, cmd1, first, tail, alone)})
+            break
+    dist["several specifications in one call"] = nsev
     # the option letters: -a/-g/-b and, for the second read, -A/-G/-B select 3' / 5' / anywhere
     try:
         parser = cli.get_argument_parser()
